@@ -497,6 +497,81 @@ def xor_to_clauses(xors, nv):
     return out
 
 
+class _Prop:
+    """Counter-based unit propagation with undo (own code; independent of the solver stub)."""
+
+    def __init__(self, nv, clauses):
+        self.cl = clauses
+        self.occ = {}
+        for ci, c in enumerate(clauses):
+            for l in c:
+                self.occ.setdefault(l, []).append(ci)
+        self.nsat = [0] * len(clauses)
+        self.nfalse = [0] * len(clauses)
+        self.val = [0] * (nv + 1)
+        self.trail = []
+
+    def assign(self, lit):
+        queue = [lit]
+        ok = True
+        val, occ, cl, nsat, nfalse = self.val, self.occ, self.cl, self.nsat, self.nfalse
+        while queue:
+            l = queue.pop()
+            v = abs(l)
+            s = 1 if l > 0 else -1
+            if val[v]:
+                if val[v] != s:
+                    ok = False
+                continue
+            val[v] = s
+            self.trail.append(l)
+            for ci in occ.get(l, ()):
+                nsat[ci] += 1
+            for ci in occ.get(-l, ()):
+                nfalse[ci] += 1
+                if nsat[ci] == 0:
+                    c = cl[ci]
+                    rem = len(c) - nfalse[ci]
+                    if rem == 0:
+                        ok = False
+                    elif rem == 1 and ok:
+                        for x in c:
+                            if val[abs(x)] == 0:
+                                queue.append(x)
+                                break
+            if not ok:
+                queue = []
+        return ok
+
+    def undo(self, n):
+        val, occ, nsat, nfalse = self.val, self.occ, self.nsat, self.nfalse
+        while len(self.trail) > n:
+            l = self.trail.pop()
+            val[abs(l)] = 0
+            for ci in occ.get(l, ()):
+                nsat[ci] -= 1
+            for ci in occ.get(-l, ()):
+                nfalse[ci] -= 1
+
+    def satisfiable_rest(self):
+        """Is the current partial assignment extendable to a model?  Restores the trail."""
+        target = None
+        for ci, c in enumerate(self.cl):
+            if self.nsat[ci] == 0:
+                target = c
+                break
+        if target is None:
+            return True
+        mark = len(self.trail)
+        for x in target:
+            if self.val[abs(x)] == 0:
+                if self.assign(x) and self.satisfiable_rest():
+                    self.undo(mark)
+                    return True
+                self.undo(mark)
+        return False
+
+
 def enumerate_projected(nv, clauses, proj, xors=(), limit=1 << 14):
     """All assignments to `proj` (list of variables) that extend to a model.  Returns a set of
     tuples of bools in the order of `proj`."""
@@ -505,37 +580,36 @@ def enumerate_projected(nv, clauses, proj, xors=(), limit=1 << 14):
         s = set(c)
         if any(-l in s for l in s):
             continue
+        if not s:
+            return set()
         cls.append(list(dict.fromkeys(c)))
     cls += xor_to_clauses(list(xors), nv)
     proj = list(dict.fromkeys(proj))
+    nv = max([nv] + [abs(l) for c in cls for l in c] + [abs(v) for v in proj])
+    P = _Prop(nv, cls)
     results = set()
+    for c in cls:
+        if len(c) == 1:
+            if not P.assign(c[0]):
+                return results
 
-    def rec(clauses, i, partial):
-        assign = {}
-        clauses = _unit_propagate(clauses, assign)
-        if clauses is None:
-            return
-        partial = dict(partial)
-        partial.update(assign)
-        while i < len(proj) and proj[i] in partial:
+    def rec(i):
+        while i < len(proj) and P.val[proj[i]] != 0:
             i += 1
         if i >= len(proj):
-            if not clauses or _sat(clauses):
-                results.add(tuple(partial[v] for v in proj))
+            if P.satisfiable_rest():
+                results.add(tuple(P.val[v] > 0 for v in proj))
                 if len(results) > limit:
                     raise RefError("too many projected models")
             return
         v = proj[i]
+        mark = len(P.trail)
         for lit in (v, -v):
-            s = _simplify(clauses, lit)
-            if s is not None:
-                p2 = dict(partial)
-                p2[v] = lit > 0
-                rec(s, i + 1, p2)
+            if P.assign(lit):
+                rec(i + 1)
+            P.undo(mark)
 
-    if any(len(c) == 0 for c in cls):
-        return results
-    rec(cls, 0, {})
+    rec(0)
     return results
 
 
